@@ -1015,6 +1015,14 @@ func (x *c04ctx) deleteRule() {
 		}
 	}
 	for fn := range x.httpFns {
+		x.deleteRuleIn(fn, streamDeleters, 0)
+	}
+	c.R.Min("R-delete", 1)
+}
+
+func (x *c04ctx) deleteRuleIn(fn *ssa.Function, streamDeleters map[*ssa.Function]bool, d int) {
+	c := x.c
+	{
 		ir.EachInstr(fn, func(_ *ssa.BasicBlock, _ int, in ssa.Instruction) {
 			call, ok := in.(*ssa.Call)
 			if !ok || !x.callReaches(call, x.deleters) {
@@ -1023,11 +1031,33 @@ func (x *c04ctx) deleteRule() {
 			if sc := ir.StaticCallee(call); sc != nil && x.httpFns[sc] {
 				return
 			}
+			// a helper that ends the session together with its stream (endSession(id)): judged inside the helper
+			if sc := ir.StaticCallee(call); sc != nil && c.P.IsLib(sc) && d < 2 && x.callReaches(call, streamDeleters) {
+				inner := false
+				ir.EachInstr(sc, func(_ *ssa.BasicBlock, _ int, in2 ssa.Instruction) {
+					if c2, ok := in2.(*ssa.Call); ok && x.callReaches(c2, x.deleters) {
+						inner = true
+					}
+				})
+				if inner {
+					x.deleteRuleIn(sc, streamDeleters, d+1)
+					return
+				}
+			}
 			var ifi *ssa.If
+			succ := 0
 			if refs := call.Referrers(); refs != nil {
 				for _, r := range *refs {
 					if i, ok := r.(*ssa.If); ok {
 						ifi = i
+					}
+					// `if !terminate(id) { return false }`: the success edge is the other one
+					if u, ok := r.(*ssa.UnOp); ok && u.Op == token.NOT && u.Referrers() != nil {
+						for _, rr := range *u.Referrers() {
+							if i, ok := rr.(*ssa.If); ok {
+								ifi, succ = i, 1
+							}
+						}
 					}
 				}
 			}
@@ -1036,7 +1066,20 @@ func (x *c04ctx) deleteRule() {
 				c.R.Violate("R-delete", construct, c.Pos(call.Pos()), "termination result not branched on")
 				return
 			}
-			esc := exitsFromBlockAvoiding(fn, ifi.Block().Succs[0], func(in ssa.Instruction) bool {
+			inline := map[ssa.Instruction]bool{}
+			for _, a := range x.accs {
+				if a.Field == x.streamTbl && a.Kind == "map-delete" && a.Fn == fn {
+					inline[a.Instr] = true
+				}
+			}
+			esc := exitsFromBlockAvoiding(fn, ifi.Block().Succs[succ], func(in ssa.Instruction) bool {
+				if inline[in] {
+					return true // the cleanup written out in this function
+				}
+				// … which starts by looking the session's stream up (there may be none to clean)
+				if lk, ok := in.(*ssa.Lookup); ok && len(inline) > 0 && fromTableLookup(lk, x.streamTbl) {
+					return true
+				}
 				cl, ok := in.(ssa.CallInstruction)
 				return ok && x.callReaches(cl, streamDeleters)
 			})
@@ -1044,7 +1087,6 @@ func (x *c04ctx) deleteRule() {
 				sprintf("in %s a successful session termination can answer without cancelling and removing the session's listening stream", fname(fn)))
 		})
 	}
-	c.R.Min("R-delete", 1)
 }
 
 // ---------------------------------------------------------------- R-table
